@@ -380,6 +380,7 @@ func c17Conc(cc c17Cell, env *Env) CellResult {
 			if !seen[v.Signature] {
 				seen[v.Signature] = true
 				v.Choices = r.Choices()
+				mustReproduce(v.Signature, v.Choices, body, check)
 				res.Violations = append(res.Violations, v)
 			}
 		}
